@@ -20,8 +20,6 @@ pub struct WelfordOnline<T: Float, V> {
     mean: T,
     m2: T,
     count: usize,
-    // number of most recent consecutive values that are equal to the newest one.
-    run_len: usize,
 }
 
 impl<T, V> WelfordOnline<T, V>
@@ -39,7 +37,6 @@ where
             mean: T::zero(),
             m2: T::zero(),
             count: 0,
-            run_len: 0,
         }
     }
 
@@ -49,20 +46,6 @@ where
         self.mean = self.mean + (delta / T::from(self.count + 1).unwrap());
         self.m2 = self.m2 + (delta * (x - self.mean));
         self.count += 1;
-    }
-
-    #[inline]
-    fn update_stats_remove(&mut self, old_value: T) {
-        if self.count <= 1 {
-            self.mean = T::zero();
-            self.m2 = T::zero();
-            self.count = 0;
-            return;
-        }
-        let delta = old_value - self.mean;
-        self.mean = self.mean - (delta / T::from(self.count - 1).unwrap());
-        self.m2 = self.m2 - (delta * (old_value - self.mean));
-        self.count -= 1;
     }
 
     /// Return the variance of the sliding window
@@ -87,22 +70,22 @@ where
         let Some(val) = self.view.last() else { return };
         debug_assert!(val.is_finite(), "value must be finite");
 
-        if self.q_vals.back() == Some(&val) {
-            self.run_len += 1;
-        } else {
-            self.run_len = 1;
-        }
         self.q_vals.push_back(val);
 
         if self.q_vals.len() > self.window_len {
-            let old_val = self.q_vals.pop_front().unwrap();
-            self.update_stats_remove(old_val);
-        }
-        self.update_stats_add(val);
-        if self.run_len >= self.count {
-            // The whole window is constant: drop the rounding residue of the values that left.
-            self.mean = val;
+            self.q_vals.pop_front();
+            // Recompute from the values in the window. Subtracting the contribution of the leaving
+            // value instead would keep the rounding residue of every large value that ever passed
+            // through the window.
+            self.mean = T::zero();
             self.m2 = T::zero();
+            self.count = 0;
+            for i in 0..self.q_vals.len() {
+                let v = self.q_vals[i];
+                self.update_stats_add(v);
+            }
+        } else {
+            self.update_stats_add(val);
         }
     }
 
